@@ -159,6 +159,28 @@ func (s *Sim) checkEvents(o *Op, chs []Change) {
 	if !s.Cfg.CheckEvents || s.Done() {
 		return
 	}
+	// judged after the world has been compared with the model (flushEvents): an event that
+	// truthfully reports a state the model does not expect is not the listener's fault
+	s.pendingEvents = append(s.pendingEvents, pendingEvent{o, chs})
+}
+
+type pendingEvent struct {
+	o   *Op
+	chs []Change
+}
+
+// flushEvents compares the events of the op just executed with the model's changes.
+func (s *Sim) flushEvents() {
+	pend := s.pendingEvents
+	s.pendingEvents = nil
+	if len(pend) == 0 || s.Done() {
+		return
+	}
+	o := pend[0].o
+	chs := []Change{}
+	for _, p := range pend {
+		chs = append(chs, p.chs...)
+	}
 	for _, b := range s.Worlds() {
 		if b.Rec == nil {
 			continue
